@@ -87,6 +87,7 @@ def main() -> int:
     seed = int(os.environ.get("VERIF_SEED", "0") or 0)
     t0 = time.time()
     try:
+        common.quiet_progress()
         mod = importlib.import_module(f"props.{pid.lower()}")
         prop = mod.PROP
         if args.replay:
